@@ -75,6 +75,27 @@ Theorem C12_fx_mult_unsigned_refuted :
   FixedPoint_mult 0 2 1 4 1 = Some 6 /\ ((4 * 1) / 2 ^ 1) mod 2 ^ 3 = 2.
 Proof. exact fx_mult_unsigned_topbit. Qed.
 
+(* after the proposed repair of finding #23 (fixes/C12-23.diff: maxv = (1 << iw) >> 1) formats without integer bits work too;
+   the check selects this instance of the model when FixedPoint(1,0,1,0) no longer raises *)
+Theorem C12_fx_add_if_fixed : forall sw iw fw a b, 0 <= sw -> 0 <= iw -> 0 <= fw ->
+  FixedPoint_add_r sw iw fw a b = Some ((a + b) mod 2 ^ (sw + iw + fw)).
+Proof. exact fx_add_r_ok. Qed.
+Theorem C12_fx_sub_if_fixed : forall sw iw fw a b, 0 <= sw -> 0 <= iw -> 0 <= fw ->
+  FixedPoint_sub_r sw iw fw a b = Some ((a - b) mod 2 ^ (sw + iw + fw)).
+Proof. exact fx_sub_r_ok. Qed.
+Theorem C12_fx_mult_if_fixed : forall sw iw fw a b, 0 <= sw -> 0 <= iw -> 0 <= fw -> 1 <= sw + iw + fw ->
+  FixedPoint_mult_r sw iw fw a b =
+  Some (((c2_decode (sw + iw + fw) a * c2_decode (sw + iw + fw) b) / 2 ^ fw) mod 2 ^ (sw + iw + fw)).
+Proof. exact fx_mult_r_ok. Qed.
+Theorem C12_fx_of_int_if_fixed : forall sw iw fw v, 0 <= sw -> 0 <= iw -> 0 <= fw -> (0 <= v \/ sw <> 0) -> v <= 2 ^ iw / 2 ->
+  FixedPoint_intToFixedPoint_r sw iw fw v = Some ((v * 2 ^ fw) mod 2 ^ (sw + iw + fw)).
+Proof. exact intToFixedPoint_r_spec. Qed.
+Theorem C12_fx_repair_conservative : forall sw iw fw v, 1 <= iw ->        (* nothing changes for the formats that worked *)
+  FixedPoint_intToFixedPoint_r sw iw fw v = FixedPoint_intToFixedPoint sw iw fw v.
+Proof. exact intToFixedPoint_r_same. Qed.
+Example C12_fx_if_fixed_ex : FixedPoint_mult_r 1 0 3 12 6 = Some 13 /\ FixedPoint_add_r 0 0 4 9 9 = Some 2.    (* -0.5 * 0.75 = -0.375 *)
+Proof. vm_compute. split; reflexivity. Qed.
+
 (* ---------------------------------------------------------------- field pack / unpack: every format, every pattern *)
 (* std_layout ew mw = sign at bit ew+mw, exponent field of ew bits at bit mw, mw mantissa bits; the code's three
    literal layouts are instances *)
@@ -160,6 +181,38 @@ Theorem C12_fpnum_compare_inf_finite : forall a b, f_nan a = false -> f_nan b = 
   (f_inf a = true -> f_inf b = false -> FPNum_compare a b = f_s a) /\
   (f_inf a = false -> f_inf b = true -> FPNum_compare a b = - f_s b).
 Proof. exact compare_inf_fin. Qed.
+
+(* compare in every version of the code (inf_fix / zero_fix = whether fixes/C12-CMP-INF.diff / C12-CMP-ZERO.diff are in; the check
+   reads both off the implementation): finite operands; with the zero repair the guard on signed zeros is not needed *)
+Theorem C12_fpnum_compare_finite_any_version : forall inf_fix zero_fix a b, wf a -> wf b ->
+  f_inf a = false -> f_nan a = false -> f_inf b = false -> f_nan b = false ->
+  (zero_fix = true \/ f_s a = f_s b \/ 0 < f_m a \/ 0 < f_m b) ->
+  FPNum_compare_with inf_fix zero_fix a b = cmpZ (Qcompare (fval a) (fval b)).
+Proof. exact compare_finite_with. Qed.
+(* with both repairs compare is the order of the extended rationals for ALL well-formed non-NaN operands (-0 = +0, -inf < +inf) *)
+Theorem C12_fpnum_compare_total_if_fixed : forall a b, wf a -> wf b -> f_nan a = false -> f_nan b = false ->
+  FPNum_compare_with true true a b = xcmpZ (xval a) (xval b).
+Proof. exact compare_total. Qed.
+Theorem C12_fpnum_compare_infinities_if_fixed : forall a b, sign_ok a -> sign_ok b -> f_nan a = false -> f_nan b = false ->
+  f_inf a = true -> f_inf b = true -> forall zero_fix, FPNum_compare_with true zero_fix a b = xcmpZ (xval a) (xval b).
+Proof. exact compare_inf_fixed. Qed.
+Example C12_fpnum_compare_if_fixed_ex :
+  FPNum_compare_with true true (mkfp (-1) (-1) 0 1 false false) (mkfp 1 (-1) 0 1 false false) = 0 /\
+  FPNum_compare_with true true (mkfp (-1) 0 0 0 true false) (mkfp 1 0 0 0 true false) = -1.
+Proof. vm_compute. split; reflexivity. Qed.
+
+(* reduceExponentPrecision after the repair of the undefined name (fixes/C12-REDUCE-EXP.diff): the value is kept, the exponent is
+   lifted to the subnormal scale of a prec-bit exponent field, infinity is flagged exactly when the biased exponent reaches all ones *)
+Theorem C12_fpnum_reduce_exponent_if_fixed : forall x prec, 1 <= prec -> 0 < f_p x ->
+  let y := FPNum_reduceExponentPrecision x prec in
+  let e_bias := (2 ^ prec - 1) / 2 in
+  f_s y = f_s x /\ f_m y = f_m x /\ f_nan y = f_nan x /\ (fval y == fval x)%Q /\ - (e_bias - 1) <= f_e y /\
+  f_inf y = (f_inf x || (f_e x + e_bias >=? 2 ^ prec - 1)).
+Proof. exact reduce_exponent_spec. Qed.
+Example C12_fpnum_reduce_exponent_ex :
+  FPNum_reduceExponentPrecision (mkfp 1 (-130) 3 2 false false) 8 = mkfp 1 (-126) 3 32 false false /\
+  f_inf (FPNum_reduceExponentPrecision (mkfp 1 128 1 1 false false) 8) = true.
+Proof. vm_compute. split; reflexivity. Qed.
 
 (* ---------------------------------------------------------------- FPNum(v, fmt) denotes the IEEE-754 value of the pattern *)
 (* every integer v (only its low 1+ew+mw bits matter): zeros, subnormals, normals, infinities, NaNs; sign of zero included *)
@@ -359,3 +412,12 @@ Print Assumptions C12_fph_encode_exact_dp_partial.
 Print Assumptions C12_fph_encode_exact_sp_partial.
 Print Assumptions C12_fx_to_float_signed.
 Print Assumptions C12_fx_to_float_unsigned.
+Print Assumptions C12_fx_add_if_fixed.
+Print Assumptions C12_fx_sub_if_fixed.
+Print Assumptions C12_fx_mult_if_fixed.
+Print Assumptions C12_fx_of_int_if_fixed.
+Print Assumptions C12_fx_repair_conservative.
+Print Assumptions C12_fpnum_compare_finite_any_version.
+Print Assumptions C12_fpnum_compare_total_if_fixed.
+Print Assumptions C12_fpnum_compare_infinities_if_fixed.
+Print Assumptions C12_fpnum_reduce_exponent_if_fixed.
